@@ -32,7 +32,7 @@ PROPS["C07"] = {
     "files": ["types/validator_set.go", "types/block.go", "types/vote.go", "types/canonical.go", "libs/math/fraction.go"],
     "groups": [
         {"dir": "types",
-         "quick": ["VP_C07_NilVotesCommitNothing", "VP_C07_Verify_n1", "VP_C07_Verify_n2", "VP_C07_Verify_n2_extra", "VP_C07_Trusting_n1_m1", "VP_C07_Trusting_n2_m1",
+         "quick": ["VP_C07_DecodedSetTotal", "VP_C07_NilVotesCommitNothing", "VP_C07_Verify_n1", "VP_C07_Verify_n2", "VP_C07_Verify_n2_extra", "VP_C07_Trusting_n1_m1", "VP_C07_Trusting_n2_m1",
                    "VP_C07_TrustLevelGuards", "VP_C07_SignBytesInjective_small", "VP_C07_Repeat_n2_m2", "VP_C07_Repeat_n3_m2"],
          "thorough": ["VP_C07_Verify_n3", "VP_C07_Repeat_n4_m3", "VP_C07_Trusting_n2_m2", "VP_C07_Trusting_n3_m2", "VP_C07_SignBytesInjective_full"]},
     ],
@@ -53,13 +53,14 @@ PROPS["C08"] = {
     "files": ["types/validator_set.go", "types/validator.go", "state/store.go"],
     "groups": [
         {"dir": "types",
-         "quick": ["VP_C08_Update_n1_c1", "VP_C08_Update_n2_c1", "VP_C08_Update_n2_c2", "VP_C08_UpdatePriorities", "VP_C08_Rescale_n2", "VP_C08_Rotation_n2_T3", "VP_C08_Rotation_n2_T4", "VP_C08_Rotation_n3_T4"],
+         "quick": ["VP_C08_Update_n1_c1", "VP_C08_Update_n2_c1", "VP_C08_Update_n2_c2", "VP_C08_UpdatePriorities", "VP_C08_UpdateManyExtreme", "VP_C08_Rescale_n2", "VP_C08_Rotation_n2_T3", "VP_C08_Rotation_n2_T4", "VP_C08_Rotation_n3_T4"],
          "thorough": ["VP_C08_Update_n3_c2", "VP_C08_Rescale_n3", "VP_C08_Rotation_n3_T5", "VP_C08_Rotation_n3_T6", "VP_C08_Rotation_n2_big"]},
         {"dir": "state",
          "quick": ["VP_C08_History_n2_low", "VP_C08_History_n2_low_change", "VP_C08_History_n2_checkpoint", "VP_C08_History_n3_checkpoint", "VP_C08_History_n2_checkpoint_change"],
          "thorough": []},
     ],
     "bounds": {
+        "over-limit batches": "2..33 newcomers within 2 of the maximum total power each (sums beyond 64 bits included): rejected, no panic, set untouched",
         "priorities after a batch": "3 validators of power 10 after 0..2 rounds; batches {newcomer}, {removal + newcomer} in both orders, {power change + newcomer + removal}, newcomer power 1/10/30: every priority equals the specified one (newcomer penalty on the total after updates before removals, window, centring)",
         "rescale": "RescalePriorities on 2 (thorough 3) validators with arbitrary priorities in [-24,24] and a window of 1..8 against the specified ceiling division",
         "update": "current set of n = 1..2 (thorough 3) validators (powers 5,3,3) built by the real NewValidatorSet; batch of c = 1..2 changes, each: address from a pool of n+2 (existing or fresh, duplicates possible), power = 0 | symbolic in [1,2^12] | symbolic negative or above the cap | symbolic within 16 of MaxTotalVotingPower; the reversed batch is applied to a copy",
@@ -79,7 +80,7 @@ PROPS["C01"] = {
          "quick": ["VP_C01_VoteSet_n2_k3", "VP_C01_VoteSet_n3_k2", "VP_C01_VoteSet_n2_k2_pv", "VP_C01_VoteSet_n2_k2_full", "VP_C01_VoteSet_n2_k5_conflict"],
          "thorough": ["VP_C01_VoteSet_n3_k3", "VP_C01_VoteSet_n3_k3_pv", "VP_C01_VoteSet_n2_k4", "VP_C01_VoteSet_n3_k3_full"]},
         {"dir": "consensus",
-         "quick": ["VP_C02_Step_R1_vote_lockfocus", "VP_C02_Step_R1_part_lockfocus"],
+         "quick": ["VP_C02_Step_R1_vote_lockfocus", "VP_C02_Step_R2_vote_lockfocus_top", "VP_C02_Step_R1_part_lockfocus"],
          "thorough": ["VP_C02_Step_R1_part", "VP_C02_Step_R1_vote_locked"]},
     ],
     "bounds": {
@@ -138,7 +139,7 @@ PROPS["C12"] = {
          "quick": ["VP_C12_V0_k3_sync", "VP_C12_V0_k3_smallcache", "VP_C12_V0_k3_async", "VP_C12_V0_k3_async_size1", "VP_C12_V0_Reap_n2", "VP_C12_V0_Reap_n3"],
          "thorough": ["VP_C12_V0_k4_sync", "VP_C12_V0_k4_async", "VP_C12_V0_k4_smallcache", "VP_C12_V0_k3_3tx"]},
         {"dir": "mempool/v1",
-         "quick": ["VP_C12_V1_k3", "VP_C12_V1_k3_smallcache", "VP_C12_V1_k2_reap", "VP_C12_V1_Concurrent"],
+         "quick": ["VP_C12_V1_k3", "VP_C12_V1_k3_smallcache", "VP_C12_V1_k2_reap", "VP_C12_V1_Concurrent", "VP_C12_V1_ReapOrder"],
          "thorough": ["VP_C12_V1_k4", "VP_C12_V1_k4_smallcache", "VP_C12_V1_k3_reap"]},
         {"dir": "state",
          "quick": ["VP_C05_Quiesce_0", "VP_C05_Quiesce_1_concurrent"],
@@ -147,6 +148,7 @@ PROPS["C12"] = {
     "bounds": {
         "histories": "real CListMempool (v0) and TxMempool (v1); k = 3 (thorough 4) operations from {CheckTx of one of 2 (one configuration 3) transactions, delivery of one pending response (v0 async connection), block commit with a symbolic subset of the transactions, symbolic DeliverTx codes, then recheck}; the application's verdict per transaction is a symbolic code that changes at every block; v1 priorities 0/1",
         "configuration": "Size 1..2, CacheSize 1..2 (including cache smaller than pool), MaxTxsBytes symbolic in [3,6], MaxTxBytes 3, KeepInvalidTxsInCache symbolic, Recheck on/off",
+        "reap order (v1)": "13..16 transactions with priorities from {3,5,7,9} arriving one millisecond apart: ReapMaxTxs(-1) and ReapMaxBytesMaxGas(-1,-1) return them by priority, then arrival",
         "concurrent submissions (v1)": "three goroutines submit A, B and A again (two orders) to the v1 mempool with a cache of one transaction while the application's answers are held back and then released one by one",
         "update lock": "the commit-time discipline the cache/pool consistency relies on (C05's quiescence entries): real BlockExecutor.Commit with the v0 mempool on a queued connection and one concurrent CheckTx with up to 3 preemptions",
         "reaping": "pool of 2..3 admitted transactions, ReapMaxTxs(max) for max in [-1,3], ReapMaxBytesMaxGas with symbolic limits in [-1,16]: prefix of the order, within the limits, maximal",
@@ -276,13 +278,14 @@ PROPS["C13"] = {
     "files": ["blockchain/v0/reactor.go", "blockchain/v0/pool.go", "types/block.go", "types/validator_set.go", "consensus/reactor.go", "consensus/state.go"],
     "groups": [
         {"dir": "blockchain/v0",
-         "quick": ["VP_C13_Accept"],
+         "quick": ["VP_C13_Accept", "VP_C13_AddBlock"],
          "thorough": []},
         {"dir": "consensus",
          "quick": ["VP_C13_Handover_n0", "VP_C13_Handover_n1", "VP_C13_Handover_n2"],
          "thorough": []},
     ],
     "bounds": {
+        "who may fill a request (H2, part)": "the real BlockPool.AddBlock / bpRequester.setBlock on a requester that is unassigned, assigned to p1, or already filled, with a block sent by p1, by another known peer or by a stranger: taken only as the assigned peer's first answer, every other sender reported",
         "hand-over (H3)": "0, 1 or 2 blocks stored (block store with seen commits, state store) through the real commit pipeline of a 1-validator chain; then a consensus State built from the start-up state and the real Reactor.SwitchToConsensus (service start stubbed): no panic, next height, last commit rebuilt with +2/3",
         "acceptance step (H1)": "the real BlockchainReactor.poolRoutine (its goroutines and tickers scheduled by the engine on virtual time) with two blocks already received from two peers; 4 validators of power 10, a different validator set from height 2 on; `first` canonical or another well-formed block; second.LastCommit for the canonical block or for `first`, each of its 4 slots one of {genuine, junk signature, absent, genuine signature under another validator's address}; real block store (MemDB) and real ValidateBlock; after the step: what was saved, executed, which peers were dropped, and whether types.CommitToVoteSet on the stored seen commit (what consensus does when it takes over) succeeds",
     },
@@ -299,17 +302,17 @@ PROPS["C16"] = {
          "thorough": []},
         {"dir": "p2p/conn",
          "quick": ["VP_C16_IncrNonce", "VP_C16_Frames_w1_d2", "VP_C16_Frames_w2_d2", "VP_C16_KeccakMatchesNative", "VP_C16_HandshakeHonest", "VP_C16_HandshakeMITM"],
-         "thorough": ["VP_C16_Frames_w2_d3", "VP_C16_Frames_w3_d3"]},
+         "thorough": ["VP_C16_Frames_w2_d3"]},
     ],
     "bounds": {
-        "frame layer (H1)": "the real SecretConnection.Write and Read on two connection structs sharing a key, linked by an adversarial pipe: up to 2 (thorough 3) writes of arbitrary bytes of length in {1,1023,1024,1025,2049}, any one link write may fail; then up to 2 (thorough 3) deliveries of any stored frame (in order, out of order, replayed, skipped), untouched / one byte at offset {0,3,4,500,len-17,len-1} xor an arbitrary non-zero mask / last byte cut; read buffers of {1,7,1024,4096} bytes; a wrapper around the sending AEAD records every nonce",
+        "frame layer (H1)": "the real SecretConnection.Write and Read on two connection structs sharing a key, linked by an adversarial pipe: 1 write of arbitrary bytes of length in {1,1023,1024,1025,2049} or 2 writes of length in {1,1024,1025}, any one link write may fail; then 2 (thorough 3) deliveries of any stored frame (in order, out of order, replayed, skipped), untouched / one byte at offset {0,3,4,500,len-17,len-1} (two writes: {0,4,len-17}) xor an arbitrary non-zero mask / last byte cut; the reader is asked again after every failure; read buffers of {1,7,1024,4096} (two writes: {7,4096}) bytes; a wrapper around the sending AEAD records every nonce",
         "nonce counter": "incrNonce on an arbitrary 12-byte nonce (all 2^96 values, decided per byte pattern by the solver)",
         "transport upgrade (H3)": "the real MultiplexTransport.upgrade (secret connection, NodeInfo exchange, validation) against a remote party that proves key X: incoming or outgoing, dialed id X or Y, NodeInfo claiming id X or Y; admitted only as X and only if X was dialed",
         "handshake (H2)": "the real MakeSecretConnection run by the honest parties as goroutines over in-memory links: two honest parties (authenticate each other's key, 5 arbitrary bytes travel); and party B against a man in the middle who completes the ephemeral exchange with its own key and then (0) presents its own identity, (1) relays A's key and A's signature obtained on a parallel leg with A, (2) replays A's signature from another session, (3) A's key with its own signature, (4) A's key with 64 arbitrary signature bytes, (5) presents each of the 7 low-order points as ephemeral key, (6) reflects B's own messages: B may accept only in case 0",
     },
     "stubs": ["chacha20poly1305 Seal/Open idealised: Open succeeds only on exactly a ciphertext Seal produced under the same key, nonce and additional data (the AEAD's INT-CTXT assumption); natively the real cipher runs",
               "X25519 and ephemeral key generation computed by crypto/ecdh on concrete bytes (deterministic ephemeral keys); keccak-f of the merlin transcript by the engine's own implementation, checked against the native value by VP_C16_KeccakMatchesNative; HKDF/HMAC/SHA-256 and ed25519 real on concrete bytes; ed25519 verification of symbolic signature bytes by the ideal-signature oracle"],
-    "outside": ["adversaries other than the seven scripted strategies; an adversary that adapts to a changed protocol", "frames longer than 3 per write, more than 3 writes"],
+    "outside": ["adversaries other than the seven scripted strategies; an adversary that adapts to a changed protocol", "frames longer than 3 per write, more than 2 writes, more than 3 deliveries"],
     "timeout_quick": 300, "timeout_thorough": 900,
 }
 
@@ -365,12 +368,16 @@ PROPS["C02"] = {
         {"dir": "types",
          "quick": ["VP_C01_VoteSet_n2_k2_pv", "VP_C01_VoteSet_n2_k3"],
          "thorough": []},
+        {"dir": "privval",
+         "quick": ["VP_C04_Signer_k2"],
+         "thorough": ["VP_C04_Signer_k3"]},
         {"dir": "consensus",
          "quick": ["VP_C02_Base", "VP_C02_Step_R1_vote_lockfocus", "VP_C02_Step_R1_vote_polproposal", "VP_C02_Step_R2_vote_lockfocus_top", "VP_C02_Step_R1_timeout_lockfocus", "VP_C02_Step_R1_part_lockfocus", "VP_C02_Step_R1_txs"],
          "thorough": ["VP_C02_Step_R1_vote_locked", "VP_C02_Step_R1_vote_unlocked", "VP_C02_Step_R1_timeout", "VP_C02_Step_R1_proposal", "VP_C02_Step_R1_part", "VP_C02_Step_R2_vote_lockfocus"]},
     ],
     "bounds": {
         "inductive step of the real consensus.State": "one arbitrary event (vote of any type/round/block; timeout; proposal; block part; txs-available) applied by the real handleMsg/handleTimeout/handleTxsAvailable to a state whose Round (0..R), Step (all 8), LockedRound, ValidRound, CommitRound, TriggeredTimeoutPrecommit, vote-set summary for rounds 0..R+1 and signing ghost are symbolic and constrained only by the invariant INV; INV is asserted again afterwards and on the NewState state (base), so every reachable state of a height is covered for rounds <= R; R=1 (thorough: also R=2 for votes); obligations L1-L5 asserted inside the signer at every signature",
+        "signer": "the last line of defence named by the property's anchors, FilePV's height/round/step regression check: C04's signer entry (k arbitrary requests with restarts) is run here too",
         "vote-set contract": "the quorum facts the step harness assumes about TwoThirdsMajority / HasTwoThirdsAny are those C01's vote-set entries decide on the real types.VoteSet with symbolic powers (two of them are run here too)",
         "slices": "quick entries cover the pre-state slice 'locked on A, valid block A, proposal block none/A, no proposal message, votes of the current height for nil/A/B' for votes (R=1, and R=2 with the node in round 2; plus the slice 'not locked, complete proposal block A with a proposal message of any POL round'), timeouts and parts, and every shape for txs-available; thorough entries cover every shape for timeouts, proposals and parts, both vote slices at R=1 ('locked on A, valid A/B, proposal block none/A/B' and 'not locked, any valid block, proposal block none/A/B/C'; together every shape, for votes of the current height for nil/A/B), and the lock-focus slice at R=2 for every round",
     },
